@@ -10,6 +10,9 @@ variants:
             declared global/nonlocal, not names captured by a nested def) of
             every function is renamed  x -> x_rn
   docstrip  additionally all docstrings are removed
+  augassign every `x op= y` becomes `x = x op y`
+  cmpswap   every single comparison `a < b` becomes `b > a` (== and != operands swapped)
+  ifinvert  every two-armed `if c: A else: B` becomes `if not c: B else: A`
 """
 
 import ast
@@ -105,8 +108,49 @@ class DocStripper(ast.NodeTransformer):
     visit_FunctionDef = visit_AsyncFunctionDef = visit_ClassDef = visit_Module = _strip
 
 
+class AugExpand(ast.NodeTransformer):
+    """x op= y  ->  x = x op y   (targets that are plain names / attribute chains)"""
+
+    def visit_AugAssign(self, n):
+        self.generic_visit(n)
+        t = n.target
+        if isinstance(t, (ast.Name, ast.Attribute)) and not any(isinstance(x, ast.Call) for x in ast.walk(t)):
+            load = ast.parse(ast.unparse(t), mode='eval').body
+            return ast.copy_location(ast.Assign(targets=[t], value=ast.BinOp(left=load, op=n.op, right=n.value)), n)
+        return n
+
+
+_SWAP = {ast.Lt: ast.Gt, ast.Gt: ast.Lt, ast.LtE: ast.GtE, ast.GtE: ast.LtE, ast.Eq: ast.Eq, ast.NotEq: ast.NotEq}
+
+
+class CmpSwap(ast.NodeTransformer):
+    """a < b -> b > a for single comparisons of side-effect-free operands"""
+
+    def visit_Compare(self, n):
+        self.generic_visit(n)
+        if len(n.ops) == 1 and type(n.ops[0]) in _SWAP and not any(isinstance(x, (ast.Call, ast.Await, ast.NamedExpr)) for x in ast.walk(n)):
+            return ast.copy_location(ast.Compare(left=n.comparators[0], ops=[_SWAP[type(n.ops[0])]()], comparators=[n.left]), n)
+        return n
+
+
+class IfInvert(ast.NodeTransformer):
+    """if c: A else: B  ->  if not c: B else: A   (only when both branches exist and B is not an elif chain)"""
+
+    def visit_If(self, n):
+        self.generic_visit(n)
+        if n.orelse and not (len(n.orelse) == 1 and isinstance(n.orelse[0], ast.If)):
+            return ast.copy_location(ast.If(test=ast.UnaryOp(op=ast.Not(), operand=n.test), body=n.orelse, orelse=n.body), n)
+        return n
+
+
 def transform(src, variant):
     tree = ast.parse(src)
+    if variant == 'augassign':
+        tree = AugExpand().visit(tree)
+    if variant == 'cmpswap':
+        tree = CmpSwap().visit(tree)
+    if variant == 'ifinvert':
+        tree = IfInvert().visit(tree)
     if variant in ('rename', 'docstrip'):
         tree = LocalRenamer().visit(tree)
     if variant == 'docstrip':
@@ -118,7 +162,7 @@ def transform(src, variant):
 
 
 def main():
-    variants = sys.argv[1:] or ['unparse', 'rename', 'docstrip']
+    variants = sys.argv[1:] or ['unparse', 'rename', 'docstrip', 'augassign', 'cmpswap', 'ifinvert']
     rc_all = 0
     for v in variants:
         tmp = tempfile.mkdtemp(prefix='sa_refac_')
